@@ -836,13 +836,15 @@ theorem toNx_pad_needs_aligned :
     (toNx (witnessGraph [0] [] [])).length = 0 ∧ (toNx ((witnessGraph [0] [] []).pad (fun _ => 1) (fun _ => 0))).length = 1 := by
   decide
 
-/-- **suspected defect, on the model**: with `filter_edges=True` a connection that was given a custom input name
-(`connect(..., name=2)` for the output node `0`) is dropped although both endpoints are selected and connected; `filter_edges=False`
-keeps it. -/
-theorem gfilter_shadow_name_witness :
+/-- a connection `0 -> 1` that node `1` made under a custom input name: `Sel.inputs` lists the *sending node* of every
+connection of the provided node object (`i.output_node.name` in `Graph.filter` / `EpisodeRecord.filter`), so the edge
+survives both flags. (Before the repair recorded in `known_findings.txt` the code used the input name, here `2`, and
+`filter_edges=True` dropped the edge: second part.) -/
+theorem gfilter_custom_input_name_kept :
     let g : Graph Nat Unit := ⟨[0, 1], fun _ => ⟨(), (), ()⟩, [(0, 1)], fun _ => ⟨(), (), ()⟩⟩
-    let s : Sel Nat := ⟨[0, 1], fun n => if n = 1 then [2] else []⟩
-    (gfilter g s true).ekeys = [] ∧ (gfilter g s false).ekeys = [(0, 1)] := by
+    let s : Sel Nat := ⟨[0, 1], fun n => if n = 1 then [0] else []⟩
+    let sOld : Sel Nat := ⟨[0, 1], fun n => if n = 1 then [2] else []⟩
+    ((gfilter g s true).ekeys = [(0, 1)] ∧ (gfilter g s false).ekeys = [(0, 1)]) ∧ (gfilter g sOld true).ekeys = [] := by
   decide
 
 /-- the record filter fails (KeyError) when a selected name was not recorded: `rfilter` is not vacuously total -/
